@@ -476,7 +476,7 @@ class Built:
         self.top = TransactronContextElaboratable(self.top_inner, transaction_manager=self.manager)
         from amaranth.hdl._ir import Fragment
 
-        rec = Recorder(capture)
+        rec = Recorder(tuple(capture) + (TransactionManager,))
         with rec:
             frag = Fragment.get(self.top, None)
         d = self.top_inner
